@@ -284,6 +284,11 @@ class Thread:
         if self._st is not None:
             raise RuntimeError("threads can only be started once")
         sim.op_enter(("thread-start", self.name))
+        sim.thread_starts += 1
+        if sim.fail_start_at is not None and sim.thread_starts == sim.fail_start_at:
+            sim.log("thread-start-failed", self.name)
+            sim.probe("thread-start-failed")
+            raise RuntimeError("can't start new thread")
         st = sim.spawn(self.run, name=self.name)
         st.handle = self
         self._st = st
